@@ -16,7 +16,9 @@ EXPLANATION = (
     '(R19.3, R19.4); parse is tuple(parsestream(...)) (R19.5); the command line decodes both input branches with '
     'args.encoding, reads newline-preserving, opens the output file with the same encoding, validates the options, and '
     'writes exactly sqlparse.format(data, **options) once; every argparse dest other than filename/outfile/encoding is an '
-    'option validate_options reads (R19.6). Not decided: equality of outputs as values; codec behaviour.')
+    'option validate_options reads (R19.6); for every combination of the boolean flags x each valued flag, the filter plan built from '
+    'validate(validate(argparse defaults + flags)) equals the plan from validate(flags) -- validate_options, build_filter_stack and the '
+    'parser table are interpreted on the enumerated dictionaries (R19.7). Not decided: equality of outputs as values; codec behaviour.')
 
 
 def norm_codec(name):
